@@ -198,6 +198,51 @@ func runC03(c *fw.Ctx) {
 			}
 		}
 	}
+	// every broadcast-compatible PAIR inside a group of shapes that collide under ad-hoc keys and fingerprints ([1,32] with [2,1],
+	// [3,1] with [1,63], [12,1] with [1,12] ...): implicit broadcasting between two such operands, both orders, all four operations
+	for gi, group := range CollidingShapes {
+		for ai, sa := range group {
+			for bi, sb := range group {
+				if ai == bi {
+					continue
+				}
+				if bs, err := ref.BroadcastShape(sa, sb); err != nil || ref.Prod(bs) > 4096 {
+					continue
+				}
+				for _, op := range c03Arith {
+					gi, sa, sb, op := gi, sa, sb, op
+					c.Case(func(k *fw.K) {
+						k.Count("colliding_shape_pair_cases", 1)
+						c03Arith1(k, op, sa, sb, k.Index%4)
+						_ = gi
+					})
+				}
+			}
+		}
+	}
+	// Pow with exponents of tiny magnitude that are NOT zero (1e-300, -1e-300, 5e-324, 1e-17): 0^a is 0 or +Inf, negative^a is NaN,
+	// positive^a is 1 to within an ulp - exactly what Pow with exponent 0 does NOT give for the first two
+	for i := 0; i < c.Pick(300, 3000); i++ {
+		c.Case(func(k *fw.K) {
+			shape := RandShape(k.Rng, 0, 3, 3)
+			x := Shuffled(k.Rng, Unique(k.Rng, shape, 0.1, 3))
+			for i := range x.Data {
+				switch k.Rng.Intn(4) {
+				case 0:
+					x.Data[i] = 0
+				case 1:
+					x.Data[i] = math.Copysign(0, -1)
+				}
+			}
+			in := ref.Instr{Op: "pow", F: []float64{1e-300, -1e-300, 5e-324, -5e-324, 1e-17, -1e-241, 1e-239}[k.Rng.Intn(7)]}
+			k.Case = fcase{In: in, Ops: []*ref.T{x}, Tag: "tiny-exponent"}
+			k.Key("pow/%g/%s/tiny-exponent", in.F, shapeKey(shape))
+			k.Count("tiny_exponent_cases", 1)
+			if msg := forwardCase(in, []*ref.T{x}, false); msg != "" {
+				k.Failf("pow(%g) on shape %v [zero, negative and positive bases]: %s", in.F, shape, msg)
+			}
+		})
+	}
 	// sampled shapes with sizes up to 7: unary, same-shape and broadcasting operations
 	for i := 0; i < c.Pick(3000, 30000); i++ {
 		c.Case(func(k *fw.K) {
